@@ -131,9 +131,10 @@ Dom(x, y, a) ==
         [] a.op = "get"       -> CASE a.tk = "at"  -> a.p1 >= 0 /\ a.p1 # Len(x)      \* at(length()) is not claimed
                                    [] a.tk = "idx" -> PosOK(x, a.p1)
                                    [] OTHER        -> TRUE                           \* front / back
-        [] a.op = "iter"      -> CASE a.tk \in {"deref", "rderef", "back_from"} -> ItOK(x, a.p1)
-                                   [] a.tk = "index" -> ItOK(x, a.p1) /\ a.c1 >= 0 /\ a.p1 + a.c1 < Len(x)
-                                   [] a.tk = "diff" -> ItOK(x, a.p1) /\ ItOK(x, a.c1) /\ a.p1 <= a.c1
+        [] a.op = "iter"      -> CASE a.tk \in {"deref", "rderef", "back_from", "rback_from"} -> ItOK(x, a.p1)
+                                   [] a.tk \in {"index", "rindex"} -> ItOK(x, a.p1) /\ a.c1 >= 0 /\ a.p1 + a.c1 < Len(x)
+                                   [] a.tk \in {"diff", "minus_eq"} -> ItOK(x, a.p1) /\ ItOK(x, a.c1) /\ a.p1 <= a.c1
+                                   [] a.tk = "cmp" -> PosOK(x, a.p1) /\ PosOK(x, a.c1)       \* index length() = end()
                                    [] OTHER -> TRUE
         [] OTHER              -> FALSE
 
@@ -183,16 +184,22 @@ Ri(x, y, a) ==
                                         [] a.tk \in {"dist", "rdist"} -> Len(x)
                                         [] a.tk = "diff"   -> a.c1 - a.p1
                                         [] a.tk = "index"  -> x[a.p1 + a.c1 + 1]
+                                        [] a.tk = "rindex" -> x[Len(x) - a.p1 - a.c1]
+                                        [] a.tk = "minus_eq" -> x[a.c1 - a.p1 + 1]
+                                        \* <, <=, >, >=, ==, != of two forward iterators as bits 1, 2, 4, 8, 16, 32
+                                        [] a.tk = "cmp"    -> B2I(a.p1 < a.c1) + 2 * B2I(a.p1 <= a.c1) + 4 * B2I(a.p1 > a.c1)
+                                                              + 8 * B2I(a.p1 >= a.c1) + 16 * B2I(a.p1 = a.c1) + 32 * B2I(a.p1 # a.c1)
                                         [] OTHER           -> NoInt
      [] OTHER                      -> NoInt
 \* text result
 Rs(x, y, a) ==
    CASE a.op = "substr" -> Sub(x, a.p1, a.c1)
      [] a.op = "copy"   -> Sub(x, a.p1, a.c1)
-     [] a.op = "obs"    -> IF a.tk \in {"empty", "length"} THEN <<>> ELSE x      \* str, c_str, data, ostream
+     [] a.op = "obs"    -> IF a.tk \in {"empty", "length"} THEN <<>> ELSE x      \* str, c_str, data, data_mut, ostream
      [] a.op = "iter"   -> CASE a.tk \in {"fwd", "fwd_post"} -> x
                              [] a.tk \in {"rev", "rev_post"} -> Rev(x)
                              [] a.tk = "back_from" -> Rev(SubSeq(x, 1, a.p1 + 1))
+                             [] a.tk = "rback_from" -> SubSeq(x, Len(x) - a.p1, Len(x))
                              [] OTHER              -> <<>>
      [] OTHER           -> <<>>
 ResultOK(x, y, a, ri, rs) ==
@@ -208,7 +215,8 @@ Init == L \in Caps /\ s = <<>> /\ o = <<>> /\ wf = TRUE
 \* ("= TRUE": TLC then evaluates Dom as an expression; as an action conjunct its \A over a long text recurses per element)
 Step(a) == /\ Dom(s, o, a) = TRUE
            /\ s' = NewS(s, o, a)
-           /\ o' = NewO(s, o, a)
+           \* a moved-from object is "valid but unspecified" for std::string: unchanged or empty are both accepted
+           /\ IF a.sk = "fs_move" THEN o' \in {a.src, <<>>} ELSE o' = NewO(s, o, a)
            /\ UNCHANGED L
 \* a call outside the domain: any content of at most L characters (ns, no chosen by the environment)
 WildCall(a, ns, no) == /\ Dom(s, o, a) = FALSE
